@@ -64,6 +64,7 @@ type Gen struct {
 	names     []string
 	heavy     Expr    // the shared Heavy(...) atom of this program, if any
 	heavyBool bool    // ... which is the boolean method HeavyB
+	heavySel  int     // ... 1: HeavyV, the rules read elements of its result; 2: HeavyP, they read a member of it
 	sharedB   Expr    // a boolean sub-expression shared between rules
 	sharedSet *Action // a setter call statement that several rules of the program use verbatim
 	used      []loc   // integer locations read by the conditions generated so far
@@ -115,7 +116,7 @@ func (g *Gen) genInt(d int) (Expr, bool) {
 		case g.chance(0.35):
 			return CI(int64(g.pick(5))), true
 		case g.heavy != nil && !g.heavyBool && g.chance(0.5):
-			return g.heavy, true
+			return g.heavyUse(), true
 		case g.chance(g.p.PFault):
 			return g.faultInt(), true
 		case g.chance(g.p.PMethod):
@@ -162,8 +163,23 @@ func usesJSON(e interface{}) bool {
 				return true
 			}
 		}
+	case *Sel:
+		return usesJSON(x.Base) || (x.I != nil && usesJSON(x.I))
 	}
 	return false
+}
+
+// heavyUse is one use of the program's counted integer atom: the call itself, or (HeavyV / HeavyP) an element / the member
+// of its result - different elements in different places, all of them served by the one remembered call.
+func (g *Gen) heavyUse() Expr {
+	c, _ := g.heavy.(*Call)
+	switch g.heavySel {
+	case 1:
+		return &Sel{Base: c, I: CI(int64(g.pick(2)))}
+	case 2:
+		return &Sel{Base: c, Member: "V"}
+	}
+	return g.heavy
 }
 
 func (g *Gen) methodInt(d int) (Expr, bool) {
@@ -176,7 +192,7 @@ func (g *Gen) methodInt(d int) (Expr, bool) {
 		return &Call{Recv: P("F"), Fn: "Sum", Args: []Expr{g.exactInt(d - 1), g.exactInt(d - 1)}}, true
 	case 3:
 		if g.p.OneHeavy && !g.heavyBool {
-			return g.heavy, true
+			return g.heavyUse(), true
 		}
 		if g.p.OneHeavy {
 			return CI(int64(g.pick(4))), true
@@ -275,6 +291,10 @@ func (g *Gen) genBool(d int) Expr {
 		return &Not{E: P(bl[g.pick(len(bl))]), Atom: true}
 	case c == 7 && g.chance(g.p.PMethod*2):
 		call := &Call{Recv: P("F"), Fn: "IsPos", Args: []Expr{g.exactInt(1)}}
+		if g.chance(0.2) {
+			// the clock in a condition: an argument list without any variable, whose value is new in every call
+			call = &Call{Recv: P("F"), Fn: "Fresh", Args: []Expr{&NowE{}}}
+		}
 		if g.chance(0.3) {
 			return &Not{E: call, Atom: true}
 		}
@@ -405,6 +425,8 @@ func usesCall(e interface{}, fn string) bool {
 			}
 		}
 		return usesCall(x.Recv, fn)
+	case *Sel:
+		return usesCall(x.Base, fn) || (x.I != nil && usesCall(x.I, fn))
 	case *Bin:
 		return usesCall(x.L, fn) || usesCall(x.R, fn)
 	case *Not:
@@ -482,7 +504,7 @@ func (g *Gen) Program() *Program {
 	for i := 0; i < n; i++ {
 		g.names = append(g.names, fmt.Sprintf("R%d", i))
 	}
-	g.heavy, g.sharedB, g.sharedSet = nil, nil, nil
+	g.heavy, g.sharedB, g.sharedSet, g.heavySel = nil, nil, nil, 0
 	if g.chance(g.p.PHeavy) || g.p.OneHeavy {
 		ls := g.intLocs()
 		l := ls[g.pick(len(ls))]
@@ -490,7 +512,12 @@ func (g *Gen) Program() *Program {
 			l = ls[g.pick(len(ls))]
 		}
 		g.heavy = &Call{Recv: P("F"), Fn: "Heavy", Args: []Expr{mkExact(g.locPath(l), l.exact)}}
-		if g.heavyBool = g.p.OneHeavy && g.chance(0.3); g.heavyBool {
+		g.heavySel = 0
+		if g.heavyBool = g.p.OneHeavy && g.chance(0.3); !g.heavyBool && g.p.OneHeavy && g.chance(0.35) {
+			g.heavySel = 1 + g.pick(2)
+			g.heavy = &Call{Recv: P("F"), Fn: []string{"HeavyV", "HeavyP"}[g.heavySel-1], Args: []Expr{mkExact(g.locPath(l), l.exact)}}
+		}
+		if g.heavyBool {
 			// the counted atom is a boolean method: it can be a whole condition (when F.HeavyB(x)) as well as an operand
 			g.heavy = &Call{Recv: P("F"), Fn: "HeavyB", Args: []Expr{mkExact(g.locPath(l), l.exact)}}
 		}
@@ -500,6 +527,7 @@ func (g *Gen) Program() *Program {
 	}
 	p := &Program{}
 	g.used = nil
+	stamped := false
 	whens := make([]Expr, n)
 	for i := 0; i < n; i++ {
 		whens[i] = g.genBool(2)
@@ -525,6 +553,10 @@ func (g *Gen) Program() *Program {
 		if g.chance(g.p.POnce) {
 			// F.Mark(<unique constant>) runs once per call: the rule retracts itself, the next call starts afresh
 			once := &Action{Kind: "set", Name: "Mark", E: CI(int64(i + 1)), Once: true}
+			if !stamped && g.chance(0.4) {
+				// (one per program: a method-call statement is itself remembered, the same text in two rules would run once)
+				once, stamped = &Action{Kind: "set", Name: "Stamp", E: &NowE{}, Once: true}, true
+			}
 			pos := g.pick(len(r.Then) + 1)
 			r.Then = append(r.Then[:pos], append([]*Action{once}, r.Then[pos:]...)...)
 			r.Then = append(r.Then, &Action{Kind: "retract", Name: r.Name})
